@@ -28,6 +28,9 @@ def run(chk):
             return "a valid tree could not be written: %r" % (r,)
         text, seen = r[1], r[2]
         d = c["desc"]
+        if len(r) > 3 and r[3] != sorted(d["variants"])[0]:
+            return ("the tree written with main variant %r, loaded and written again without one, has [general] variant = %r; "
+                    "the alphabetically first top-level variant is %r" % (c["main_variant"], r[3], sorted(d["variants"])[0]))
         ini = S.mini_ini(text)
         g = ini.get("general")
         if g is None:
